@@ -37,6 +37,62 @@ def nl_boundary(nl):
 _NEG = {"Ne": "Eq", "Eq": "Ne", "Lt": "Ge", "Ge": "Lt", "Gt": "Le", "Le": "Gt"}
 
 
+def _zone_operands(facts, rep, nlf):
+    """R08.6 (structural half): the zone test compares NL of the EVEN latitude with NL of the ODD latitude. E2's path condition
+    only shows that two results of the NL function are compared; here the comparison itself is read: after resolving constant
+    array indices, the two arguments of the NL function must be two different expressions, neither selected by a run-time
+    index (`nl(rlat[0]) != nl(rlat[form])` compares a latitude with itself for one of the two formats)."""
+    import re
+    n = 0
+    for b in facts.bodies.values():
+        if b.kind == "promoted" or "::tests::" in b.name or not any(callee_name(t) == nlf.name for _, t in b.calls()):
+            continue
+        du = DefUse(b)
+
+        def const_index(tok):
+            m = re.fullmatch(r"\[_(\d+)\]", tok) if isinstance(tok, str) else None
+            if m is None:
+                return tok if isinstance(tok, int) else None
+            r = du.root_place({"local": int(m.group(1)), "proj": []})
+            if r[0] == "const" and isinstance(r[1], dict) and "int" in r[1]:
+                return int(r[1]["int"])
+            return None
+
+        def resolve(e, depth=0):
+            if not isinstance(e, tuple) or depth > 40:
+                return e
+            if e and e[0] == "path" and isinstance(e[1], tuple) and e[1][:2] == ("agg", "array") and e[2]:
+                k = const_index(e[2][0])
+                if k is not None and 0 <= k < len(e[1][2]):
+                    inner = e[1][2][k]
+                    return resolve(inner if len(e[2]) == 1 else ("path", inner, e[2][1:]), depth + 1)
+                return ("select-at-run-time", tuple(resolve(x, depth + 1) for x in e[1][2]))
+            return tuple(resolve(x, depth + 1) if isinstance(x, tuple) else x for x in e)
+
+        from ..cfg import CFG
+        cfg = CFG(b)
+        for bi in sorted(cfg.reach):
+            t = b.blocks[bi]["term"]
+            if t["k"] != "switch":
+                continue
+            e = expr(du, t["discr"])
+            if not (e[0] == "bin" and e[1] in ("Eq", "Ne")):
+                continue
+            l, r = resolve(e[2]), resolve(e[3])
+            if not (l[0] == "call" and r[0] == "call" and l[1] == nlf.name and r[1] == nlf.name):
+                continue
+            n += 1
+            la, ra = l[2][0], r[2][0]
+            ok = "select-at-run-time" not in str(la) and "select-at-run-time" not in str(ra) and la != ra
+            rep.oblige(ok, ("zone-operands", b.name, bi))
+            if not ok:
+                rep.add(Finding("R08.6", "%s : zone test does not compare the even with the odd latitude" % b.name,
+                                "the two latitudes whose NL zones are compared are %s: for some format bit a latitude is compared with "
+                                "itself and a zone-straddling pair is decoded" % ("the same expression" if la == ra else "picked by a run-time index"),
+                                span_loc(t.get("span"))))
+    rep.extra["zone_tests_read"] = n
+
+
 def atoms(pc, head):
     """path-condition atoms with this comparison head; `x >= k is false` is reported as `x < k is true` etc."""
     out = []
@@ -299,6 +355,7 @@ def run(facts, rep, tier):
     if len(nlf) != 1:
         raise Broken("C08 anchor: latitude->NL function not unique (%d candidates)" % len(nlf))
     nlf = nlf[0]
+    _zone_operands(facts, rep, nlf)
     bnds = [(nl_, 87.0 if nl_ == 2 else nl_boundary(nl_)) for nl_ in range(59, 1, -1)]
     zones = []
     lo = 0.0
